@@ -37,12 +37,30 @@ fn lane_fields(prefix: &str, l: &Lane) -> Vec<(String, String)> {
     ]
 }
 
+/// The build profile of this binary: a violation is replayed by a binary of the same profile.
+pub fn profile_name() -> &'static str {
+    static NAME: std::sync::OnceLock<&'static str> = std::sync::OnceLock::new();
+    NAME.get_or_init(|| {
+        if cfg!(debug_assertions) {
+            return "vdbg";
+        }
+        // (main installs a silent panic hook before anything else runs)
+        let x: u8 = std::hint::black_box(255);
+        if std::panic::catch_unwind(move || std::hint::black_box(x + std::hint::black_box(1))).is_err() {
+            "vovf"
+        } else {
+            "release"
+        }
+    })
+}
+
 pub fn write_replay(dir: &str, prop: &str, armed: u32, v: &Violation) -> String {
     let mut kv: Vec<(String, String)> = vec![
         ("property".into(), json::s(prop)),
         ("kind".into(), json::s(if v.relation.starts_with("scan") { "scan" } else if v.relation == "family" || v.relation == "scaling" { "family" } else { "parse" })),
         ("relation".into(), json::s(&v.relation)),
         ("armed".into(), armed.to_string()),
+        ("profile".into(), json::s(profile_name())),
         ("what".into(), json::s(&v.what)),
     ];
     kv.extend(lane_fields("", &v.lane));
